@@ -114,12 +114,12 @@ fn check<C: Cm>(case: &Case) -> PResult {
     ensure!(donec, format!("iter_terminates/{n_}"), "chain() does not terminate properly");
 
     // every other way of consuming the iterators agrees with next()
-    check_iter_laws(&|| sl.iter().map(|x| x.to_bits()), codes, &format!("iter_laws/{n_}"), &case.widths)?;
-    check_iter_laws(&|| sl.into_iter().map(|x| x.to_bits()), codes, &format!("into_iter_laws/{n_}"), &case.widths)?;
-    check_iter_laws(&|| sl.rev_iter().map(|x| x.to_bits()), &exp_rev, &format!("rev_iter_laws/{n_}"), &case.widths)?;
-    check_iter_laws(&|| sl.chain(s2).map(|x| x.to_bits()), &exp_chain, &format!("chain_laws/{n_}"), &case.widths)?;
+    check_iter_laws(&|| sl.iter(), &|x: C| x.to_bits(), codes, &format!("iter_laws/{n_}"), &case.widths)?;
+    check_iter_laws(&|| sl.into_iter(), &|x: C| x.to_bits(), codes, &format!("into_iter_laws/{n_}"), &case.widths)?;
+    check_iter_laws(&|| sl.rev_iter(), &|x: C| x.to_bits(), &exp_rev, &format!("rev_iter_laws/{n_}"), &case.widths)?;
+    check_iter_laws(&|| sl.chain(s2), &|x: C| x.to_bits(), &exp_chain, &format!("chain_laws/{n_}"), &case.widths)?;
     if let Some(o) = built.owned() {
-        check_iter_laws(&|| o.into_iter().map(|x| x.to_bits()), codes, &format!("into_iter_seq_laws/{n_}"), &case.widths)?;
+        check_iter_laws(&|| o.into_iter(), &|x: C| x.to_bits(), codes, &format!("into_iter_seq_laws/{n_}"), &case.widths)?;
     }
 
     // windows and chunks
@@ -170,9 +170,9 @@ fn check<C: Cm>(case: &Case) -> PResult {
         let law_widths = [1 + case.widths.first().copied().unwrap_or(2) as usize % (n + 1), 1 + case.widths.get(1).copied().unwrap_or(0) as usize % 7];
         if nwin * w <= 6000 && law_widths.contains(&w) {
             let expv: Vec<Vec<u8>> = codes.windows(w).map(|x| x.to_vec()).collect();
-            check_iter_laws(&|| sl.windows(w).map(|x| codes_of(x)), &expv, &format!("windows_laws/{n_}"), &case.widths)?;
+            check_iter_laws(&|| sl.windows(w), &|x: &SeqSlice<C>| codes_of(x), &expv, &format!("windows_laws/{n_}"), &case.widths)?;
             let expc: Vec<Vec<u8>> = codes.chunks_exact(w).map(|x| x.to_vec()).collect();
-            check_iter_laws(&|| sl.chunks(w).map(|x| codes_of(x)), &expc, &format!("chunks_laws/{n_}"), &case.widths)?;
+            check_iter_laws(&|| sl.chunks(w), &|x: &SeqSlice<C>| codes_of(x), &expc, &format!("chunks_laws/{n_}"), &case.widths)?;
         }
         if w >= 2 && n >= w + 1 {
             let item_straddles = (0..=n - w).any(|i| {
